@@ -284,7 +284,7 @@ fn pinned(ctx: &Ctx, rep: &mut Report, fx: &Fixture) {
 pub fn check(ctx: &Ctx, rep: &mut Report) {
     let fx = Fixture::new();
     pinned(ctx, rep, &fx);
-    let total = ctx.size(8_000, 1_920_000) / ctx.nshards;
+    let total = ctx.size(8_000, 800_000) / ctx.nshards;
     for k in 0..total {
         if !ctx.wants(k) {
             continue;
